@@ -267,4 +267,61 @@ theorem step_reg (w : World) (e : Ev) : (w.step e).1.reg = run w.reg (w.regEvent
     simp only [World.step, World.regEvents]
     cases w.clients[i]? <;> simp [run, REv.apply]
 
+/-! ### histories -/
+
+theorem runEvs_dead (a : Addr) (evs : List Ev) :
+    ∀ w : World, w.reg a = some none → NoRegister a w evs → (w.runEvs evs).1.reg a = some none := by
+  induction evs with
+  | nil => intro w h _; exact h
+  | cons e es ih =>
+    intro w h hno
+    simp only [World.runEvs]
+    refine ih (w.step e).1 ?_ hno.2
+    rw [step_reg]
+    exact dead_stable_run a _ _ h hno.1
+
+theorem hbStep_mono (a : Addr) (c c' : HbCfg) (lab : HbLabel) (l : Time)
+    (hs : hbStep? c lab = some c') (hlive : c.reg a = some (some l))
+    (hh : ∀ h, hbUnregs a (c.handlers h) = false) (hl : labelUnregs a lab = false) :
+    (∃ l', c'.reg a = some (some l') ∧ l ≤ l') ∧ ∀ h, hbUnregs a (c'.handlers h) = false := by
+  cases lab with
+  | tick d =>
+    simp only [hbStep?, Option.some.injEq] at hs; subst hs
+    exact ⟨⟨l, hlive, Int.le_refl _⟩, hh⟩
+  | other e =>
+    simp only [hbStep?, Option.some.injEq] at hs; subst hs
+    exact ⟨live_mono_ev c.reg a l hlive e hl, hh⟩
+  | handler i =>
+    simp only [hbStep?] at hs
+    cases hp : c.handlers i with
+    | start s al =>
+      simp only [hp, Option.some.injEq] at hs; subst hs
+      refine ⟨⟨l, hlive, Int.le_refl _⟩, ?_⟩
+      intro j
+      by_cases hj : j = i
+      · subst hj
+        have := hh j; rw [hp] at this
+        simp only [if_true]
+        cases s <;> cases al <;> simp_all [hbUnregs]
+      · simp only [hj, if_false]; exact hh j
+    | read s al t =>
+      simp only [hp, Option.some.injEq] at hs; subst hs
+      refine ⟨?_, ?_⟩
+      · apply live_mono_run a _ c.reg l hlive
+        intro e he
+        have := hh i; rw [hp] at this
+        cases s with
+        | none => simp [heartbeatEvents] at he
+        | some b =>
+          cases al with
+          | true => simp [heartbeatEvents] at he; rw [he]; rfl
+          | false =>
+            simp [heartbeatEvents] at he; rw [he]
+            simpa [hbUnregs, REv.unregisters] using this
+      · intro j
+        by_cases hj : j = i
+        · subst hj; simp [hbUnregs]
+        · simp only [hj, if_false]; exact hh j
+    | done => simp [hp] at hs
+
 end MlModel.Registry
